@@ -49,9 +49,24 @@ const respMatrixDoc = `{"openapi":"3.0.3","info":{"title":"t","version":"1"},
  "/r5":{"get":{"operationId":"r5","responses":{
    "200":{"description":"ok","content":{"application/json":{"schema":{"$ref":"#/components/schemas/C"}}}},
    "4XX":{"description":"c","content":{"application/json":{"schema":{"$ref":"#/components/schemas/D"}}}},
-   "default":{"description":"def","content":{"application/json":{"schema":{"$ref":"#/components/schemas/C"}}}}}}}
+   "default":{"description":"def","content":{"application/json":{"schema":{"$ref":"#/components/schemas/C"}}}}}}},
+ "/r6":{"get":{"operationId":"r6","responses":{
+   "200":{"description":"ok","headers":{"X-R":{"schema":{"type":"string"}}}},
+   "4XX":{"description":"c","headers":{"X-R":{"schema":{"type":"string"}}}},
+   "default":{"description":"def","headers":{"X-R":{"schema":{"type":"string"}},"X-N":{"schema":{"type":"integer","format":"int64"}}}}}}},
+ "/r7":{"get":{"operationId":"r7","responses":{
+   "204":{"description":"none"},
+   "3XX":{"description":"redir"},
+   "default":{"description":"def"}}}},
+ "/dflt":{"post":{"operationId":"dflt","requestBody":{"required":true,"content":{"application/json":{"schema":{"$ref":"#/components/schemas/Dflt"}}}},"responses":{"200":{"description":"ok"}}}}
 },
 "components":{"schemas":{
+ "Dflt":{"type":"object","properties":{
+   "a":{"type":"boolean","default":false},"b":{"type":"boolean","default":true},
+   "c":{"type":"integer","format":"int64","default":0},"d":{"type":"integer","format":"int64","default":7},
+   "e":{"type":"string","default":""},"f":{"type":"string","default":"x"},
+   "g":{"type":"number","format":"double","default":0},"h":{"type":"number","format":"double","default":1.5},
+   "i":{"type":"string"}}},
  "A":{"type":"object","required":["s","n"],"properties":{"s":{"type":"string"},"n":{"type":"integer","format":"int64"},"f":{"type":"number","format":"double"},"b":{"type":"boolean"},"arr":{"type":"array","items":{"type":"string"}},"on":{"type":"string","nullable":true}}},
  "B":{"type":"object","required":["code"],"properties":{"code":{"type":"integer","format":"int64"},"msg":{"type":"string"}}},
  "C":{"type":"object","properties":{"why":{"type":"string"},"m":{"type":"object","additionalProperties":{"type":"integer","format":"int64"}}}},
@@ -97,6 +112,7 @@ func c01RunExchange(r *lp.Run, rng *lp.Rand, drv *gc.Driver, ex *c01Exchange) {
 	}
 	if ex.resp != nil {
 		c01Responses(r, rng, drv, ex.resp)
+		c01BodyDefaults(r, drv, ex.resp)
 	}
 }
 
@@ -227,6 +243,9 @@ func respVariants(op *ir.Operation) []respVariant {
 
 func c01Responses(r *lp.Run, rng *lp.Rand, drv *gc.Driver, x *exSpec) {
 	for _, op := range x.pkg.Gen.Operations() {
+		if op.Request != nil {
+			continue // the response matrix operations take no request
+		}
 		c01Select(r, rng, drv, x, op)
 		for _, v := range respVariants(op) {
 			for _, code := range v.codes {
@@ -356,6 +375,50 @@ func c01Select(r *lp.Run, rng *lp.Rand, drv *gc.Driver, x *exSpec, op *ir.Operat
 			r.PropCheck()
 			if got != v.tag {
 				r.Known(lp.PropFail{Property: "C01", Class: "K3", What: "a pattern/default variant carrying a status that the spec assigns to a more specific variant is decoded as that other variant", Input: in, Observed: got, Expected: v.tag})
+			}
+		}
+	}
+}
+
+// absent members that have a schema default arrive as that default (also when the default is the zero value)
+func c01BodyDefaults(r *lp.Run, drv *gc.Driver, x *exSpec) {
+	abs := map[string]any{"$absent": true}
+	all := map[string]string{"A": "some(false)", "B": "some(true)", "C": "some(0)", "D": "some(7)", "E": `some("")`, "F": `some("x")`,
+		"G": "some(f64:0000000000000000)", "H": "some(f64:3ff8000000000000)", "I": "absent"}
+	given := map[string]map[string]any{
+		"nothing":  {"A": abs, "B": abs, "C": abs, "D": abs, "E": abs, "F": abs, "G": abs, "H": abs, "I": abs},
+		"some set": {"A": true, "B": abs, "C": json.Number("5"), "D": abs, "E": "v", "F": abs, "G": abs, "H": json.Number("2"), "I": "i"},
+	}
+	for name, desc := range given {
+		ans, _ := drv.Do(map[string]any{"pkg": x.pkg.Name, "cmd": "call", "op": "Dflt", "req": desc})
+		srv, _ := ans["server"].(map[string]any)
+		r.Count("c01dflt "+name, "body-defaults", true)
+		r.PropCheck()
+		in := map[string]any{"operation": "dflt", "members_supplied": name}
+		if ans["error"] != nil || srv == nil {
+			r.Fail(lp.PropFail{Property: "C01", What: "driver failure", Input: in, Observed: fmt.Sprint(ans), Expected: "a call"})
+			continue
+		}
+		got := fmt.Sprint(srv["req"])
+		for f, want := range all {
+			exp := f + "=" + want
+			if name == "some set" {
+				switch f {
+				case "A":
+					exp = "A=some(true)"
+				case "C":
+					exp = "C=some(5)"
+				case "E":
+					exp = `E=some("v")`
+				case "H":
+					exp = "H=some(f64:4000000000000000)"
+				case "I":
+					exp = `I=some("i")`
+				}
+			}
+			if !strings.Contains(got, exp) {
+				r.Fail(lp.PropFail{Property: "C01", What: "an absent member with a schema default does not arrive as that default (or a supplied member is changed)", Input: in, Observed: got, Expected: "… " + exp + " …"})
+				break
 			}
 		}
 	}
